@@ -312,10 +312,26 @@ def vreport (args : List String) : Option String := do
   let r := runSession ops
   some (showBool r.hasErrors ++ " " ++ showList (r.final.map toString))
 
+def elemName : Elem → String
+  | .mpd => "mpd" | .period => "period" | .adaptationSet => "adaptationSet"
+  | .representation => "representation" | .segmentTemplate => "segmentTemplate" | .s => "s"
+
+def locKindName : LocKind → String
+  | .mpd => "mpd" | .period => "period" | .adaptationSet => "adp" | .representation => "rep"
+  | .timeline => "timeline"
+
+/-- `vattrs` → the table of required attributes, one row `elem,attr,live|vod,timeline(1|0|-),loc,err`,
+rows separated by `;` -/
+def vattrs (_ : List String) : Option String :=
+  some (joinWith ";" (mandatoryAttrs.map fun r =>
+    joinWith "," [elemName r.elem, r.attr, (if r.live then "live" else "vod"),
+      (match r.timeline with | none => "-" | some true => "1" | some false => "0"),
+      locKindName r.loc, mErrName r.err]))
+
 /-- channels exported to `Main.lean` (collected by harness/gen_main.py) -/
 def channels : List (String × (List String → Option String)) :=
   [("vseg", vseg), ("vrep", vrep), ("vtl", vtl), ("vgentl", vgentl), ("vtldepth", vtldepth), ("vwin", vwin),
    ("vtol", vtol),
-   ("vinit", vinit), ("vmpd", vmpd), ("vrefresh", vrefresh), ("vreport", vreport)]
+   ("vinit", vinit), ("vmpd", vmpd), ("vrefresh", vrefresh), ("vreport", vreport), ("vattrs", vattrs)]
 
 end DashLive.Driver.Validator
